@@ -323,6 +323,11 @@ words!(A64d, 18, u64, 8, 48, true, #[repr(align(64))]);
 words_drop!(A64d, 18);
 words!(L160d, 19, u64, 20, 48, true);
 words_drop!(L160d, 19);
+// sizes above 32 / 64 bytes that are not a multiple of them (chunked copy / swap remainders)
+words!(M40d, 22, u64, 5, 48, true);
+words_drop!(M40d, 22);
+words!(H72d, 23, u64, 9, 48, true);
+words_drop!(H72d, 23);
 
 // ---------------------------------------------------------------------------------------------
 // heap-owning types: a duplicated / lost payload is also a tool report (double free / leak)
